@@ -12,7 +12,7 @@ Import ListNotations.
    a new global write makes this fail until it has been looked at. *)
 Theorem C15_writes_classified :
   List.length writes = n_writes /\ forallb classified writes = true /\ forallb entry_live classification = true.
-Proof. split; [exact (proj1 writes_all_classified)|split; [exact (proj2 writes_all_classified)|exact classification_live]]. Qed.
+Proof. exact (conj (proj1 writes_all_classified) (conj (proj2 writes_all_classified) classification_live)). Qed.
 Print Assumptions C15_writes_classified.
 
 (* Abstract process model: the state is a map from cells to contents; a parse performs the
@@ -31,10 +31,7 @@ Theorem C15_history_independent :
   forall (h : list I) (i : I),
     out_after I O value key key_eqb kl ws K W F keyof T L init out_fn h i =
     out_fresh I O value key key_eqb kl ws K W F keyof T L init out_fn i.
-Proof.
-  intros I O value key key_eqb Hk kl ws K W F keyof T L init out_fn Hnl Hext h i.
-  exact (history_independent I O value key key_eqb Hk kl ws K W F keyof T L init out_fn Hnl Hext h i).
-Qed.
+Proof. exact history_independent. Qed.
 Print Assumptions C15_history_independent.
 
 (* reading a memo table: in every state reachable by any history, a cache hit returns exactly
@@ -49,10 +46,7 @@ Theorem C15_cache_hit_equals_miss :
     kl c = PureCache ->
     run I O value key key_eqb kl ws K W F keyof T L out_fn (g0 value key kl init) h c = Cache value key es ->
     cache_get value key key_eqb es k = Some v -> v = F c k.
-Proof.
-  intros I O value key key_eqb Hk kl ws K W F keyof T L init out_fn Hnl h c es k v.
-  exact (cache_hit_equals_miss_reachable I O value key key_eqb Hk kl ws K W F keyof T L init out_fn Hnl h c es k v).
-Qed.
+Proof. exact cache_hit_equals_miss_reachable. Qed.
 Print Assumptions C15_cache_hit_equals_miss.
 
 (* the instance given by the regenerated table meets the premise except for the cells listed as open leaks
@@ -120,13 +114,13 @@ Theorem C15_merge_commutes :
   forall (data : Type) (wks wks' : list (worker data)),
     Permutation wks wks' -> NoDup (flat_map fst wks) ->
     forall main k, elookup data k (merge_all data main wks) = elookup data k (merge_all data main wks').
-Proof. intros data wks wks' HP HN main k. exact (merge_commutes data wks wks' HP HN main k). Qed.
+Proof. exact merge_commutes. Qed.
 Print Assumptions C15_merge_commutes.
 
 (* the package calls no source of non-determinism (uuid4, random, time, ...): bound = the calls
    of the regenerated table *)
 Theorem C15_no_nondeterminism_source : nondet_calls = [].
-Proof. reflexivity. Qed.
+Proof. exact eq_refl. Qed.
 Print Assumptions C15_no_nondeterminism_source.
 
 (* non-vacuity: a two-worker merge in both orders *)
